@@ -47,6 +47,8 @@ def run(ctx):
     from . import c12
     c12.r12_5(ctx, rep, roles)
     ctx.report.rules[-1].id = "R18.3b(R12.5)"
+    from .. import identity
+    identity.check(ctx, rep, "C18", "R18.8", ["hb-default", "id-eq", "id-hash", "vv-clone"])
 
 
 class Model:
